@@ -113,7 +113,10 @@ type putSpec struct {
 	val int
 }
 
+var timed bool // putters let 2ms of virtual time pass between puts, workers take 10ms per item
+
 func queueScenario(name string, putters [][]putSpec, workers, requeues int, bounds []int) explore.Scenario {
+	isTimed := strings.Contains(name, "timed")
 	return explore.Scenario{
 		Name:   "queue/" + name,
 		Desc:   fmt.Sprintf("real queue.Queue (Run loop, resettable timer, virtual clock) with putters %v, %d worker(s); each delivery's outcome is an environment choice among Release / Requeue(+1s) / Requeue(+3s) / Requeue(-1s) (at most %d requeues per worker); every rendezvous is replayed on a reference model (pending/processing/parked)", putters, workers, requeues),
@@ -126,8 +129,11 @@ func queueScenario(name string, putters [][]putSpec, workers, requeues int, boun
 			vrt.GoNamed("queue.Run", func() { q.Run(ctx) })
 			for pi, specs := range putters {
 				vrt.GoNamed(fmt.Sprintf("putter%d", pi), func() {
-					for _, s := range specs {
+					for si, s := range specs {
 						vrt.Yield()
+						if isTimed && si > 0 {
+							vtime.Sleep(2 * time.Millisecond)
+						}
 						q.Put(s.key, s.val)
 						m.put(s.key, s.val, vrt.Now()) // same run segment as the rendezvous: model order = queue order
 					}
@@ -151,6 +157,9 @@ func queueScenario(name string, putters [][]putSpec, workers, requeues int, boun
 							x.Failf("%s (model: %s)", msg, m)
 						}
 						vrt.Yield() // processing time
+						if isTimed {
+							vtime.Sleep(10 * time.Millisecond)
+						}
 						choice := 0
 						if budget > 0 {
 							choice = vrt.Choose(4, "outcome")
@@ -409,6 +418,7 @@ func build(tier string) []explore.Scenario {
 	out = append(out,
 		queueScenario("1putter-1worker", [][]putSpec{{{"k1", 1}, {"k1", 2}, {"k2", 3}}}, 1, 1, b),
 		queueScenario("1putter-1worker-2requeues", [][]putSpec{{{"k1", 1}, {"k1", 2}}}, 1, 2, b),
+		queueScenario("1putter-1worker-timed", [][]putSpec{{{"k2", 9}, {"k1", 1}, {"k1", 2}, {"k1", 3}}}, 1, 1, []int{0, 1}),
 		queueScenario("2putters-1worker", [][]putSpec{{{"k1", 1}, {"k1", 2}}, {{"k1", 3}}}, 1, 1, []int{0, 1, 2}),
 		queueScenario("2putters-2workers", [][]putSpec{{{"k1", 1}, {"k2", 2}}, {{"k1", 3}}}, 2, 1, []int{0}),
 		queueScenario("1putter-2workers-samekey", [][]putSpec{{{"k1", 1}, {"k1", 2}, {"k1", 3}}}, 2, 1, []int{0, 1, 2}),
